@@ -2,8 +2,8 @@
 EXTENDS FimTopology, Json
 CONSTANTS MaxDepth, Seed, Profile
 
-VARIABLES st, lastop, path, chg
-vars == <<st, lastop, path, chg>>
+VARIABLES st, lastop, path, chg, lvl
+vars == <<st, lastop, path, chg, lvl>>
 
 NodeNames == {"n1", "n2"}
 Sites == {"S1", "S2"}
@@ -114,13 +114,16 @@ SeedOps ==
 RECURSIVE RunAll(_, _, _)
 RunAll(T, ops, i) == IF i > Len(ops) THEN T ELSE RunAll(Apply(T, ops[i]).st, ops, i + 1)
 
-Init == st = RunAll(Empty, SeedOps, 1) /\ lastop = [op |-> "Init"] /\ path = SeedOps /\ chg = FALSE
-Next == \E o \in Ops(st) :
+Init == st = RunAll(Empty, SeedOps, 1) /\ lastop = [op |-> "Init"] /\ path = SeedOps /\ chg = FALSE /\ lvl = 1
+\* lvl = number of steps taken + 1: an explicit depth (unlike TLCGet("level") it does not depend on which worker found a
+\* state first, so the model-checking runs - VIEW ViewMC - are complete for the bound with any number of workers)
+Next == lvl <= MaxDepth /\ \E o \in Ops(st) :
           LET r == Apply(st, o) IN
-            /\ st' = r.st /\ lastop' = o /\ chg' = (r.st # st)
+            /\ st' = r.st /\ lastop' = o /\ chg' = (r.st # st) /\ lvl' = IF r.st # st THEN lvl + 1 ELSE lvl
             /\ path' = IF r.st # st THEN Append(path, o) ELSE path
 Spec == Init /\ [][Next]_vars
 View == st
+ViewMC == <<st, lvl>>
 Bound == TLCGet("level") <= MaxDepth
 LogStep == PrintT(ToJson([path |-> path, op |-> lastop', chg |-> chg']))
 
